@@ -73,7 +73,7 @@ Definition cat := list (string * tree).
 Definition nouts (t : tree) : nat := (fix go (t : tree) : nat := match t with Leaf _ o => List.length o | Br _ a _ => go a | Abort _ => O end) t.
 Definition entry_auto (cs cp : cat) (nm : string) : bool :=
   match lookup nm cs, lookup nm cp with Some s, Some p => auto_eq (nouts p) s p | _, _ => false end.
-Definition rest_names (cs cp : cat) : list string := filter (fun nm => negb (entry_auto cs cp nm)) (map fst cp).
+Definition rest_names (cs cp : cat) : list string := filter (fun nm => negb (entry_auto cs cp nm)) (map fst cp).   (* restricted to the float / double entries by the generator *)
 (* the entry nm of the SIMD catalogue means, on D, what the entry nm of the generic catalogue means *)
 Definition entry_ok_on (D : renv -> Prop) (cs cp : cat) (nm : string) : Prop :=
   exists s p, lookup nm cs = Some s /\ lookup nm cp = Some p /\ (0 < nouts p)%nat /\ comp_eq_on D (nouts p) s p.
@@ -130,8 +130,10 @@ Definition dom (nm : string) : renv -> Prop :=
   else if existsb (String.eqb nm) ["sqrt4_lowp"; "inversesqrt4_lowp"]%string then D_nonneg
   else fun _ => True.
 
-(* ---- chains of catalogues: Rel names a b = every listed entry of a means (on its domain) what the entry of b means *)
-Definition Rel (names : list string) (a b : cat) : Prop := forall nm, In nm names -> entry_ok_on (dom nm) a b nm.
+(* ---- chains of catalogues: Rel names a b = every listed float / double entry of a means (on its domain) what the entry of b
+   means; the integer entries (names i4_, i3_, u4_) are compared in the integer semantics (A_C03_int.RelZ) *)
+Definition is_int_name (nm : string) : bool := String.prefix "i4_" nm || String.prefix "i3_" nm || String.prefix "u4_" nm.
+Definition Rel (names : list string) (a b : cat) : Prop := forall nm, In nm names -> is_int_name nm = false -> entry_ok_on (dom nm) a b nm.
 Lemma wf_nouts n : forall t, wf n t = true -> nouts t = n.
 Proof. induction t as [p o|c a IHa b IHb|w]; cbn; intros H; [apply Nat.eqb_eq, H| |discriminate]. apply andb_prop in H as [Ha _]. apply IHa, Ha. Qed.
 Lemma entry_ok_trans D a b c nm : entry_ok_on D a b nm -> entry_ok_on D b c nm -> entry_ok_on D a c nm.
@@ -142,12 +144,12 @@ Proof.
   rewrite <- E. eapply comp_eq_on_trans; [exact He|]. rewrite E. exact He'.
 Qed.
 Lemma Rel_trans names a b c : Rel names a b -> Rel names b c -> Rel names a c.
-Proof. intros H1 H2 nm Hin. eapply entry_ok_trans; [apply H1, Hin|apply H2, Hin]. Qed.
+Proof. intros H1 H2 nm Hin Hi. eapply entry_ok_trans; [apply H1|apply H2]; assumption. Qed.
 (* an edge: the entries of `manual` by their own lemmas, all the others decided by computation *)
 Lemma Rel_split names manual a b : (forall nm, In nm manual -> entry_ok_on (dom nm) a b nm) ->
-  autos a b (filter (fun nm => negb (existsb (String.eqb nm) manual)) names) = true -> Rel names a b.
+  autos a b (filter (fun nm => negb (is_int_name nm) && negb (existsb (String.eqb nm) manual)) names) = true -> Rel names a b.
 Proof.
-  intros HM HA nm Hin. destruct (existsb (String.eqb nm) manual) eqn:E.
+  intros HM HA nm Hin Hi. destruct (existsb (String.eqb nm) manual) eqn:E.
   - apply HM. apply existsb_exists in E as (m & Hm & Em). apply String.eqb_eq in Em. subst. exact Hm.
-  - apply (entry_ok_weaken (fun _ => True)); [trivial|]. apply (autos_sound a b _ HA). apply filter_In. split; [exact Hin|]. rewrite E. reflexivity.
+  - apply (entry_ok_weaken (fun _ => True)); [trivial|]. apply (autos_sound a b _ HA). apply filter_In. split; [exact Hin|]. rewrite Hi, E. reflexivity.
 Qed.
